@@ -354,7 +354,7 @@ def run_mtest(text, timeout=30):
 
 
 FUZZ_ASAN = ("detect_leaks=0:abort_on_error=0:symbolize=1:detect_odr_violation=0:handle_abort=1:quarantine_size_mb=16:"
-             "malloc_context_size=6:allocator_may_return_null=1")
+             "malloc_context_size=6:allocator_may_return_null=1:max_malloc_fill_size=268435456:malloc_fill_byte=190")
 
 
 def parse_only_terminates(text):
